@@ -8,6 +8,7 @@ import (
 	"go/constant"
 	"go/token"
 	"go/types"
+	"regexp"
 	"sort"
 	"strings"
 
@@ -16,6 +17,8 @@ import (
 
 func checkC12(c *Ctx) {
 	c.explainf("C12 decides agreement of the printer's and the reader's tables: the escape sequences the string and char printers can emit (the documented output alphabet of strconv.Quote / QuoteRune, which they call) are all accepted by the reader's escape switch; the literal-decoding path never turns one byte of a string into a rune; the float printer never returns a bare shortest-'f' text, which for whole values is an integer literal; every token kind the atom classifier produces has an arm in the expression parser and the numeric arms parse with the base that matches the prefix the lexer strips; the end-of-text path flushes the last atom. No data printer pastes the raw text of a string value into its output (C12-RAW). It does not decide float text round trip, the regex cascade, or equality of read-back values.")
+
+	c.checkReaderSymbolsReadable("C12-SYMNAME")
 
 	// ---- C12-ESC
 	printers := map[string]string{"SexpStr.SexpString": "Quote", "SexpChar.SexpString": "QuoteRune"}
@@ -573,3 +576,81 @@ func (c *Ctx) checkLookbackRing(rule string) {
 
 var c12DataPrinters = map[string]bool{"SexpInt": true, "SexpUint64": true, "SexpFloat": true, "SexpBool": true, "SexpChar": true,
 	"SexpSentinel": true, "SexpSymbol": true, "SexpPair": true, "SexpArray": true, "SexpHash": true, "SexpRaw": true}
+
+// checkReaderSymbolsReadable: C12-SYMNAME. "Symbols ... read back": the reader
+// itself makes symbols -- the heads of the lists it builds for ' % ^ ~ ~@ and
+// the like -- and a symbol prints as its bare name. A name that the symbol
+// pattern of the lexer does not accept cannot be read back: printed inside a
+// quoted list it comes back as several tokens. Every constant name that a
+// method of the parser hands to MakeSymbol is matched here, in the checker,
+// against the package's SymbolRegex (a constant pattern).
+func (c *Ctx) checkReaderSymbolsReadable(rule string) {
+	parserT := c.named("Parser")
+	mk := c.mustFn(rule, "Zlisp.MakeSymbol")
+	if parserT == nil || mk == nil {
+		return
+	}
+	// the pattern: SymbolRegex = regexp.MustCompile(<constant>) in the package initialiser
+	pattern := ""
+	if g := c.SZygo.Var("SymbolRegex"); g != nil {
+		var inits []*ssa.Function
+		if f := c.SZygo.Func("init"); f != nil {
+			inits = append(inits, f) // the package initialiser (variable initialisers live here)
+		}
+		for _, f := range c.zygoFuncs() {
+			if strings.HasPrefix(f.Name(), "init#") {
+				inits = append(inits, f)
+			}
+		}
+		for _, f := range inits {
+			eachInstr(f, func(b *ssa.BasicBlock, i int, in ssa.Instruction) {
+				st, ok := in.(*ssa.Store)
+				if !ok || st.Addr != ssa.Value(g) {
+					return
+				}
+				if call, ok := st.Val.(*ssa.Call); ok && len(call.Call.Args) == 1 {
+					if k, ok := call.Call.Args[0].(*ssa.Const); ok && k.Value != nil && k.Value.Kind() == constant.String {
+						pattern = constant.StringVal(k.Value)
+					}
+				}
+			})
+		}
+	}
+	if pattern == "" {
+		c.undecided(rule, "Lexer", "symbol pattern", token.NoPos, "the constant pattern of SymbolRegex was not found in the package initialiser")
+		return
+	}
+	re, err := regexp.Compile(pattern)
+	if err != nil {
+		c.undecided(rule, "Lexer", "symbol pattern", token.NoPos, "SymbolRegex does not compile: "+err.Error())
+		return
+	}
+	n := 0
+	seen := map[string]bool{}
+	for _, f := range c.zygoFuncs() {
+		if !isMethodOf(topFn(f), parserT) {
+			continue
+		}
+		eachInstr(f, func(b *ssa.BasicBlock, i int, in ssa.Instruction) {
+			call, ok := in.(*ssa.Call)
+			if !ok || call.Call.StaticCallee() != mk || len(call.Call.Args) < 2 {
+				return
+			}
+			k, ok := call.Call.Args[1].(*ssa.Const)
+			if !ok || k.Value == nil || k.Value.Kind() != constant.String {
+				return
+			}
+			name := constant.StringVal(k.Value)
+			if seen[name] {
+				return
+			}
+			seen[name] = true
+			n++
+			c.check(re.MatchString(name), rule, fnName(f), "reader-made symbol `"+name+"` is a readable name", call.Pos(),
+				"the lexer's symbol pattern accepts the name", "the reader makes the symbol `"+name+"`, which the lexer's own symbol pattern does not accept: printed (a symbol prints as its name) it reads back as something else -- `(a ~@b)` quoted, printed and read again has a four-element list where the splice was")
+		})
+	}
+	if n < 3 {
+		c.undecided(rule, "Parser", "reader-made symbols", token.NoPos, fmt.Sprintf("only %d constant symbol names made by the parser found", n))
+	}
+}
